@@ -209,7 +209,7 @@ func TestVfC14Faults(t *testing.T) {
 }
 
 func TestVfC14Stale(t *testing.T) {
-	st := vfkit.Stats("TestVfC14Stale", "per connection-oriented transport: after a successful exchange the server kills the pooled idle connection(s) by FIN or RST, 0-50 ms before the next call, and stays healthy; oracle: the next exchange succeeds within its 3 s deadline using at most 7 new connections; and a server that kills every connection on the first query yields an error with at most 7 connections per exchange; non-trivial = every case")
+	st := vfkit.Stats("TestVfC14Stale", "per connection-oriented transport: after a successful exchange the server kills the pooled idle connection(s) by FIN or RST, 0 us-50 ms before the next call, and stays healthy, 1-40 rounds per case; oracle: the next exchange succeeds within its 3 s deadline using at most 7 new connections; and a server that kills every connection on the first query yields an error with at most 7 connections per exchange; non-trivial = every case")
 	defer vfkit.Flush()
 	_, leaf := vfTLSMaterial()
 	rapid.Check(t, func(t *rapid.T) {
@@ -240,17 +240,26 @@ func TestVfC14Stale(t *testing.T) {
 		before := srv.Conns()
 		switch mode {
 		case "stale-fin", "stale-rst":
-			killed := srv.KillConns(mode == "stale-rst")
-			time.Sleep(time.Duration(rapid.IntRange(0, 50).Draw(t, "gapMs")) * time.Millisecond)
-			ctx, cancel := context.WithTimeout(context.Background(), 3*time.Second)
-			ok, err, took := vfExchange(u, ctx, 99, "after-kill.c14")
-			cancel()
-			dials := srv.Conns() - before
-			if !ok {
-				t.Fatalf("%s: the server closed %d pooled idle connection(s) (%s) and stayed healthy, but the next exchange failed after %v: %v", kind, killed, mode, took, err)
-			}
-			if dials > 7 {
-				t.Fatalf("%s: %d new connections for one exchange after a stale pooled connection", kind, dials)
+			// several rounds per case: kill, wait 0 .. 50 ms (mostly next to nothing, so that the next exchange meets the
+			// connection while the client side is still finding out), exchange - which is also the warm-up of the next round
+			rounds := rapid.IntRange(1, 40).Draw(t, "rounds")
+			for r := 0; r < rounds; r++ {
+				before = srv.Conns()
+				killed := srv.KillConns(mode == "stale-rst")
+				gap := time.Duration(rapid.SampledFrom([]int{0, 0, 0, 20, 60, 150, 400, 1000, 5000, 50000}).Draw(t, "gapMicros")) * time.Microsecond
+				if gap > 0 {
+					time.Sleep(gap)
+				}
+				ctx, cancel := context.WithTimeout(context.Background(), 3*time.Second)
+				ok, err, took := vfExchange(u, ctx, uint16(99+r), "after-kill.c14")
+				cancel()
+				dials := srv.Conns() - before
+				if !ok {
+					t.Fatalf("%s: the server closed %d pooled idle connection(s) (%s, round %d, %v before the call) and stayed healthy, but the next exchange failed after %v: %v", kind, killed, mode, r, gap, took, err)
+				}
+				if dials > 7 {
+					t.Fatalf("%s: %d new connections for one exchange after a stale pooled connection", kind, dials)
+				}
 			}
 		default:
 			killAll.Store(true)
